@@ -11,6 +11,7 @@ from __future__ import annotations
 import json
 import os
 import random
+import sys
 
 from harness import x_c04 as X
 from harness.core import Machinery
@@ -374,7 +375,9 @@ def run(ctx):
                 "xyzlen": src["xyzlen"],
                 "predicted_by_MechObserved": bool(predicted),
             }
-            rp = {"src": src, "route": c["route"], "mesh": list(c["mesh"]), "acts": c["acts"][: max(step, 1)], "first_failing_step": step}
+            rp = {"src": src, "route": c["route"], "mesh": list(c["mesh"]), "centres": c.get("centres", "offset"), "acts": c["acts"][: max(step, 1)], "first_failing_step": step}
+            if c.get("dialect"):
+                rp["dialect"] = c["dialect"]
             ctx.violation("%s|%s|%s|%s" % (rid, clause, var, tag), clause, detail={"var": var, "tag": tag, "step": step, "lonconv": src["lonconv"]}, sig=sig, replay=rp)
     if drift:
         ex = [(k, v[0], v[1][:2]) for k, v in sorted(drift.items())[:2]]
@@ -410,3 +413,78 @@ def run(ctx):
         "SCRIP / ESMF / MPAS sources: stored tables from Dialects.tla, materialised by harness/x_c01.py; nodes of these grids are matched to lattice directions by position (1e-9 rad)",
         "dask runs with the synchronous scheduler; the coordinate setters and construct_face_centers('welzl') are out of scope",
     ]
+
+
+def replay(path):
+    """./check C04 --replay <file>: re-run the cases stored in a replay file (as written on a VIOLATION)
+    against the current tree and print, per case, what the trace validator rejects.  Exit 1 if any case fails."""
+    import shutil
+
+    from harness import core
+
+    with open(path) as fh:
+        data = json.load(fh)
+    stored = data.get("cases", [])
+    ctx = core.Ctx(PROP, "replay", 0)
+    try:
+        seen, cases = set(), []
+        for v in stored:
+            rp = v.get("replay") or {}
+            k = json.dumps(rp, sort_keys=True)
+            if not rp or k in seen:
+                continue
+            seen.add(k)
+            cases.append(
+                {
+                    "id": "replay%d" % len(cases),
+                    "src": rp["src"],
+                    "route": rp["route"],
+                    "mesh": tuple(rp["mesh"]),
+                    "centres": rp.get("centres", "offset"),
+                    "dialect": rp.get("dialect"),
+                    "acts": rp["acts"],
+                    "was": v.get("key"),
+                }
+            )
+        if any(c["mesh"][0] == "polar_cap" for c in cases):
+            cap_meshes(ctx)
+        if any(str(c["mesh"][0]).startswith("dialects:") for c in cases):
+            from checks import c01
+
+            ms, _ = c01.generate(ctx, DIALECT_MESHES, DIALECT_ROUTES)
+            for m in ms.values():
+                X.register_mesh(("dialects:" + m["id"], 0, 0), m["nodes"], m["faces"])
+        recs = [X.replay(c) for c in cases]
+        for r in recs:
+            if "build_error" in r:
+                print("MACHINERY-FAILURE: %s could not be constructed: %s" % (r["id"], r["build_error"]), file=sys.stderr)
+                return 2
+        tpath = os.path.join(ctx.work, "traces.ndjson")
+        with open(tpath, "w") as fh:
+            for r in recs:
+                fh.write(json.dumps({k: r[k] for k in ("id", "src", "init", "fpos0", "steps")}) + "\n")
+        rj = ctx.tlc_ok("TraceCoord", JUDGE_CFG, what="replay", env={"REC_FILE": tpath}, workers=2, count=False)
+        verdicts = {p[1]: (sorted(p[2], key=str), p[3]) for p in rj.prints if isinstance(p, tuple) and len(p) == 4 and p[0] == "V"}
+        if set(verdicts) != {r["id"] for r in recs}:
+            print("MACHINERY-FAILURE: the trace validator returned %d verdicts for %d cases" % (len(verdicts), len(recs)), file=sys.stderr)
+            return 2
+        bad = 0
+        for c, r in zip(cases, recs):
+            fails, dr = verdicts[r["id"]]
+            head = "%s %s mesh=%s src=%s acts=%s" % (c["id"], c["route"], list(c["mesh"]), c["src"], c["acts"])
+            if fails:
+                bad += 1
+                print("FAILS   " + head)
+                for clause, var, tag, step, predicted in fails:
+                    print("    clause=%s var=%s tag=%s first_step=%d (%s) predicted_by_MechObserved=%s" % (clause, var, tag, step, c["acts"][step - 1] if step else "construction", predicted))
+            else:
+                print("holds   " + head)
+            if dr:
+                print("    model drift at step %d: %s" % (dr[0], sorted(dr[1], key=str)[:4]))
+        print("%s replay: %d stored case(s), %d distinct, %d fail on this tree" % (PROP, len(stored), len(cases), bad))
+        return 1 if bad else 0
+    except (Machinery, Exception) as e:  # noqa
+        print("MACHINERY-FAILURE property=%s replay: %s: %s" % (PROP, type(e).__name__, e), file=sys.stderr)
+        return 2
+    finally:
+        shutil.rmtree(ctx.work, ignore_errors=True)
